@@ -352,7 +352,7 @@ def _work(pid, tier, verif_seed, start, count, known_sigs, want_digests, deadlin
 
 def _work_batch(pid, tier, verif_seed, start, count, known_sigs, want_digests, deadline):
     """Runs [start, start+count) in this (forked) process.  Returns an aggregate dict."""
-    faulthandler.dump_traceback_later(max(60, int(deadline - time.time()) + 200), exit=True)
+    faulthandler.dump_traceback_later(max(60, int(deadline - time.time()) + 500), exit=True)
     agg = {"runs": 0, "evals": 0, "steps": 0, "stats": {}, "faults": {}, "probes": {},
            "keys": {}, "samples": [], "discarded": {}, "violation": None, "known": {},
            "digests": {}, "error": None, "first": start, "last": start}
@@ -735,8 +735,10 @@ def run_check(pid, tier, verif_seed, budget_s=None, max_runs=None, workers=None)
                     if r["violation"] and (violation is None or r["violation"]["run_index"] < violation["run_index"]):
                         violation = r["violation"]
                         stop = True
-                if time.time() > deadline + 120:
-                    error = "workers overran the deadline by 120 s"
+                # a run that started just before the deadline may legitimately take the per-run limit
+                # (90 s / 180 s); only well beyond that is the pool considered stuck
+                if time.time() > deadline + 420:
+                    error = "workers overran the deadline by 420 s"
                     break
         except cf.process.BrokenProcessPool as e:
             error = f"worker died: {e}"
